@@ -115,7 +115,7 @@ Definition w_setter_missing : list op :=
    OpDefine 2 0 {| d_kind := KAcc None (Some VUndef); d_enum := None; d_conf := None |}; OpSet 0 0 2 (VNum 3)].
 
 Definition transparent_on (ops : list op) : Prop :=
-  observable (run_cached ops) = observable (run_uncached ops) /\ ~ In None (run_cached ops).
+  observable (run_cached [] ops) = observable (run_uncached [] ops) /\ ~ In None (run_cached [] ops).
 
 Lemma fixed_witness_lemma :
   transparent_on w_proto_layout /\ transparent_on w_proto_panic /\ transparent_on w_unique_attr /\
